@@ -14,10 +14,11 @@ import random
 
 PROPERTY = "C09"
 RULE = (
-    "case kinds: (kernel) structured kernel x sizes/ranks/grid shapes (incl. unequal per-axis grid sizes, anisotropic lengthscales) x settings; "
-    "(strategy) model in {KISS-GP 1-d/2-d, SGPR, RFF} x {Cholesky, CG} x fast_pred_var x sgpr_diagonal_correction x use_toeplitz; (sgpr_bound); "
-    "(wiski_fantasy) prior mean zero/non-zero x depth; (interp) dimension x grid sizes; (convergence) kernel x dimension; distinct = cell without seed; "
-    "non-trivial iff the structured result differs from a diagonal/identity matrix (always for n>=2)"
+    'case kinds: (kernel) structured kernel x sizes/ranks/grid shapes (incl. unequal per-axis grid sizes, anisotropic lengthscales) x settings; '
+    '(strategy) model in {KISS-GP 1-d/2-d, SGPR, RFF} x {Cholesky, CG} x fast_pred_var x sgpr_diagonal_correction x use_toeplitz; (sgpr_bound) '
+    'Gaussian / fixed / fixed+learned noise; multitask kernels over stationary, linear, polynomial and KISS data kernels incl. diag paths; '
+    '(wiski_fantasy) prior mean zero/non-zero x depth; (interp) dimension x grid sizes; (convergence) kernel x dimension; distinct = cell without '
+    'seed; non-trivial iff the structured result differs from a diagonal/identity matrix (always for n>=2)'
 )
 REQUIRED = ["multitask_kron", "index_kernel", "lcm_kernel", "grid_kernel_dense", "kiss_kernel_WKW", "nystrom", "rff_features", "strategy_equals_dense_conditional", "sgpr_titsias_bound", "sgpr_predictive_equations",
             "wiski_fantasy", "interp_sum_to_one", "interp_exact_at_nodes", "interp_reproduces_quadratics", "interp_matrix_equals_tensor_product", "kiss_converges", "path:InterpolatedPredictionStrategy.exact_prediction", "path:SGPRPredictionStrategy.exact_prediction"]
